@@ -1913,6 +1913,13 @@ fn generate_constraints_iface_impl(ctx: &mut StaticsContext, iface_impl: &Rc<Int
                     node: iface_impl.typ.node(),
                 })
             }
+            // implementations are looked up by the type's constructor, which a type variable lacks
+            if let Some(PotentialType::Poly(..)) = impl_ty.single() {
+                ctx.errors.push(Error::GenericWithNode {
+                    msg: "An interface cannot be implemented for a type variable, only for a concrete or generic type.".to_string(),
+                    node: iface_impl.typ.node(),
+                })
+            }
             let polyvar_scope = PolyvarScope::empty();
             polyvar_scope.add_polys(&impl_ty);
 
